@@ -136,7 +136,7 @@ PollWake15(c) ==
 PollAny02(c) ==
   /\ st[c] \in {"created", "sleeping"}
   /\ \/ (st' = [st EXCEPT ![c] = Admitted(c)] /\ ngate' = ngate + 1 /\ ev' = [e |-> "poll", c |-> c, t |-> now, ns |-> 1] /\ Observe)
-     \/ (st' = [st EXCEPT ![c] = "sleeping"] /\ ev' = [e |-> "poll", c |-> c, t |-> now, res |-> "pending"] /\ NoObserve /\ UNCHANGED ngate)
+     \/ (st' = [st EXCEPT ![c] = "sleeping"] /\ ev' = [e |-> "poll", c |-> c, t |-> now, res |-> "pending", ns |-> 0] /\ NoObserve /\ UNCHANGED ngate)
      \/ (st' = [st EXCEPT ![c] = "done"] /\ ev' = [e |-> "poll", c |-> c, t |-> now, res |-> "err", ns |-> 0] /\ NoObserve /\ UNCHANGED ngate)
   /\ UNCHANGED <<cfg, now, firstPoll, wakeAt, fx, lg, ct, lastAct>>
 
